@@ -31,11 +31,11 @@ Join(prefix, name) == IF prefix = "" THEN name ELSE prefix \o "/" \o name
 Min(S) == CHOOSE x \in S : \A y \in S : x <= y
 TaggedIdx(shape) == {i \in DOMAIN shape : Tagged(shape[i].kind)}
 
-\* ParseFields / NewStore's validation: the first offending field in declaration order decides
+\* ParseFields / NewStore's validation: a struct with an offending field, or without any tagged field, is rejected up front
+\* (which field is named first, and in what words, is the implementation's business)
 Parse(shape) ==
-  LET bad == {i \in DOMAIN shape : Offending(shape[i].kind)} IN
-  IF bad # {} THEN (IF shape[Min(bad)].kind = "float" THEN "unsupported" ELSE "emptyname")
-  ELSE IF TaggedIdx(shape) = {} THEN "nofields"
+  IF \E i \in DOMAIN shape : Offending(shape[i].kind) THEN "rejected"
+  ELSE IF TaggedIdx(shape) = {} THEN "rejected"
   ELSE "ok"
 
 \* the secrets requested, one per tagged field, in declaration order
